@@ -33,7 +33,20 @@ PairClauses(r) ==
   ELSE Cl("same-reconstruction", Len(r.sig_m) = Len(r.sig_w) /\ \A k \in DOMAIN r.sig_m : Abs(r.sig_m[k] - r.sig_w[k]) <= r.tol)
        \o Cl("same-mapped-reconstructed-data", Len(r.map_m) = Len(r.map_w) /\ \A k \in DOMAIN r.map_m : Abs(r.map_m[k] - r.map_w[k]) <= r.tol)
 
-Clauses(r) == IF r.api = "run" THEN RunClauses(r) ELSE IF r.api = "pair" THEN PairClauses(r) ELSE << "unknown-api" >>
+\* Delaunay (interpolating) mappers: the mapping matrix has irrational-free but instance-dependent denominators, so D and F
+\* are compared BETWEEN the formalisms in fixed point (the mapping formalism is the definition B'WB evaluated directly)
+IsVec(v, n) == Len(v) = n
+DFClauses(r) ==
+  IF r.raised THEN << "no-exception" >>
+  ELSE Cl("same-data-vector", Len(r.D_m) = Len(r.D_w) /\ \A k \in DOMAIN r.D_m : Abs(r.D_m[k] - r.D_w[k]) <= r.tol)
+       \o Cl("same-curvature-matrix",
+              Len(r.F_m) = Len(r.F_w) /\ \A a \in DOMAIN r.F_m : Len(r.F_m[a]) = Len(r.F_w[a])
+                 /\ \A c \in DOMAIN r.F_m[a] : Abs(r.F_m[a][c] - r.F_w[a][c]) <= r.tol)
+       \o Cl("curvature-matrix-symmetric", \A a \in DOMAIN r.F_w : \A c \in DOMAIN r.F_w : Abs(r.F_w[a][c] - r.F_w[c][a]) <= r.tol)
+       \o PairClauses(r)
+
+Clauses(r) == IF r.api = "run" THEN RunClauses(r) ELSE IF r.api = "pair" THEN PairClauses(r)
+              ELSE IF r.api = "pairdf" THEN DFClauses(r) ELSE << "unknown-api" >>
 
 \* signature: formalism and the input classes that matter for it
 HasNeg(m) == \E a \in DOMAIN m : \E c \in DOMAIN m[a] : m[a][c] < 0
